@@ -30,7 +30,11 @@ def main(argv):
             else:
                 mod.replay(s, data)
         else:
-            mod.run(s)
+            try:
+                mod.run(s)
+            except BaseException as e:
+                if type(e).__name__ != 'EarlyStop':
+                    raise
         res = s.result()
         if cov_on:
             res['cov'] = cov.report(repo_root())
